@@ -38,6 +38,12 @@ KNOWN = [
  ("C11", "zinc-normalisation-loses:empty-row-of-one-column-grid",
   "a row without cells in a one-column grid has no Zinc spelling (the encoder writes an empty line, which ends the grid), yet the decoder produces such rows from text like ',' because it tolerates trailing empty cells (pinned by the unit test test_zinc_parse_nested_grid, so the decoder cannot be tightened); decode -> encode -> decode loses the row",
   "ver:\"3.0\"\\na\\nN\\n,\\n  decodes to rows [{a:N},{}]; re-encoded as ver:\"3.0\"\\na\\nN\\n\\n\\n which decodes to one row"),
+ ("C11", "zinc-normalisation-loses:timestamp-at-offset-with-seconds",
+  "a timestamp in a named zone at a time when that zone's offset had seconds (local mean time, e.g. London before 1847: -00:01:15) is accepted, but RFC 3339 (used by Zinc) can only spell whole-minute offsets: re-encoding drops the seconds and the instant moves by up to 59 s. Outside the 1980-2060 range of C06; a repair needs a format decision (emit UTC + zone, or reject), not a small patch",
+  "0000-02-29T00:00:00Z London -> 0000-02-28T23:58:45-00:01 London, which denotes an instant 15 s earlier"),
+ ("C11", "hayson-normalisation-loses:timestamp-at-offset-with-seconds",
+  "same defect through Hayson: the dateTime val is RFC 3339 and drops the seconds of a local-mean-time offset",
+  "{\"_kind\":\"dateTime\",\"val\":\"0000-02-29T00:00:00Z\",\"tz\":\"London\"} -> val 0000-02-28T23:58:45-00:01"),
 ]
 def main():
     f = []
